@@ -500,3 +500,29 @@ func TestD23_AbsentValueAtTheEdgeOfTheLastChunk(t *testing.T) {
 		t.Fatalf("PreviousAbsentValue(50) on [0,100) = %d, want -1", got)
 	}
 }
+
+// #24 C17: roaring64 in-place Xor had no rb == x2 guard: b.Xor(b) with two or more buckets ran off the end
+// of the table it was shrinking.
+func TestD24_Xor64WithItself(t *testing.T) {
+	b := roaring64.BitmapOf(1, 1<<32, 2<<32)
+	b.Xor(b)
+	if !b.IsEmpty() {
+		t.Fatalf("b.Xor(b) = %v, want the empty bitmap", b.ToArray())
+	}
+}
+
+// #25 C19: ClearValues with the index's own existence bitmap as the found-set must clear the planes too.
+func TestD25_ClearValuesWithOwnExistenceBitmap(t *testing.T) {
+	b := roaring64.NewDefaultBSI()
+	for i := 0; i < 3000; i++ {
+		b.SetValue(uint64(i*7), 1000)
+	}
+	b.ClearValues(b.GetExistenceBitmap())
+	if b.GetCardinality() != 0 {
+		t.Fatalf("existence bitmap not cleared")
+	}
+	b.Increment(roaring64.BitmapOf(7))
+	if v, ok := b.GetValue(7); !ok || v != 1 {
+		t.Fatalf("after clearing all values, Increment of column 7 gives %d,%v; want 1,true (stale plane bits survived)", v, ok)
+	}
+}
